@@ -141,11 +141,17 @@ func c12CDP(t *testing.T, rec *ev.Rec, round int) {
 			mkv("withdraw", func(f string) sdk.Msg {
 				return &vaulttypes.MsgWithdrawRequest{From: f, AppId: v.AppId, ExtendedPairVaultId: v.ExtendedPairVaultID, UserVaultId: v.Id, Amount: small}
 			}, nil),
+			mkv("withdraw/whole-collateral", func(f string) sdk.Msg {
+				return &vaulttypes.MsgWithdrawRequest{From: f, AppId: v.AppId, ExtendedPairVaultId: v.ExtendedPairVaultID, UserVaultId: v.Id, Amount: v.AmountIn}
+			}, nil),
 			mkv("draw", func(f string) sdk.Msg {
 				return &vaulttypes.MsgDrawRequest{From: f, AppId: v.AppId, ExtendedPairVaultId: v.ExtendedPairVaultID, UserVaultId: v.Id, Amount: p.P.DebtFloor}
 			}, nil),
 			mkv("repay", func(f string) sdk.Msg {
 				return &vaulttypes.MsgRepayRequest{From: f, AppId: v.AppId, ExtendedPairVaultId: v.ExtendedPairVaultID, UserVaultId: v.Id, Amount: p.P.DebtFloor}
+			}, top),
+			mkv("repay/whole-debt", func(f string) sdk.Msg {
+				return &vaulttypes.MsgRepayRequest{From: f, AppId: v.AppId, ExtendedPairVaultId: v.ExtendedPairVaultID, UserVaultId: v.Id, Amount: v.AmountOut}
 			}, top),
 			mkv("deposit-and-draw", func(f string) sdk.Msg {
 				return &vaulttypes.MsgDepositAndDrawRequest{From: f, AppId: v.AppId, ExtendedPairVaultId: v.ExtendedPairVaultID, UserVaultId: v.Id, Amount: small}
@@ -183,6 +189,9 @@ func c12CDP(t *testing.T, rec *ev.Rec, round int) {
 			{name: "locker/withdraw", owner: owner, mk: func(a *sim.Acct) sdk.Msg {
 				return &lockertypes.MsgWithdrawAssetRequest{Depositor: a.Addr.String(), LockerId: l.LockerId, Amount: sdk.NewInt(1000), AssetId: l.AssetDepositId, AppId: l.AppId}
 			}},
+			{name: "locker/withdraw/whole-balance", owner: owner, mk: func(a *sim.Acct) sdk.Msg {
+				return &lockertypes.MsgWithdrawAssetRequest{Depositor: a.Addr.String(), LockerId: l.LockerId, Amount: l.NetBalance.SubRaw(1000), AssetId: l.AssetDepositId, AppId: l.AppId}
+			}},
 			{name: "locker/close", owner: owner, mk: func(a *sim.Acct) sdk.Msg {
 				return &lockertypes.MsgCloseLockerRequest{Depositor: a.Addr.String(), AppId: l.AppId, AssetId: l.AssetDepositId, LockerId: l.LockerId}
 			}},
@@ -194,9 +203,13 @@ func c12CDP(t *testing.T, rec *ev.Rec, round int) {
 	as, coll := u.byDenom["ucmst"], u.byDenom["uatom"]
 	r.topUpDebt(owner, "ucmst", sdk.NewInt(20_000_000))
 	c.Deliver(owner, &auctionsV2types.MsgDepositLimitBidRequest{CollateralTokenId: coll.ID, DebtTokenId: as.ID, PremiumDiscount: sdk.NewInt(7), Bidder: owner.Addr.String(), Amount: sdk.NewCoin("ucmst", sdk.NewInt(9_000_000))})
+	c.Deliver(owner, &auctionsV2types.MsgDepositLimitBidRequest{CollateralTokenId: coll.ID, DebtTokenId: as.ID, PremiumDiscount: sdk.NewInt(9), Bidder: owner.Addr.String(), Amount: sdk.NewCoin("ucmst", sdk.NewInt(4_000_000))})
 	for _, pc := range []pairedCase{
 		{name: "limit-bid/withdraw", owner: owner, mk: func(a *sim.Acct) sdk.Msg {
 			return &auctionsV2types.MsgWithdrawLimitBidRequest{CollateralTokenId: coll.ID, DebtTokenId: as.ID, PremiumDiscount: sdk.NewInt(7), Bidder: a.Addr.String(), Amount: sdk.NewCoin("ucmst", sdk.NewInt(1_000_000))}
+		}},
+		{name: "limit-bid/withdraw/whole-deposit", owner: owner, mk: func(a *sim.Acct) sdk.Msg {
+			return &auctionsV2types.MsgWithdrawLimitBidRequest{CollateralTokenId: coll.ID, DebtTokenId: as.ID, PremiumDiscount: sdk.NewInt(9), Bidder: a.Addr.String(), Amount: sdk.NewCoin("ucmst", sdk.NewInt(4_000_000))}
 		}},
 		{name: "limit-bid/cancel", owner: owner, mk: func(a *sim.Acct) sdk.Msg {
 			return &auctionsV2types.MsgCancelLimitBidRequest{CollateralTokenId: coll.ID, DebtTokenId: as.ID, PremiumDiscount: sdk.NewInt(7), Bidder: a.Addr.String()}
@@ -255,6 +268,28 @@ func c12Payloads(u *cdpU) map[string]bindings.ComdexMessages {
 	}
 }
 
+// c12WithAddr returns a copy of the payload in which every sdk.AccAddress field of the set variant is addr.
+func c12WithAddr(pl bindings.ComdexMessages, addr sdk.AccAddress) (bindings.ComdexMessages, bool) {
+	v := reflect.ValueOf(&pl).Elem()
+	changed := false
+	for i := 0; i < v.NumField(); i++ {
+		f := v.Field(i)
+		if f.Kind() != reflect.Ptr || f.IsNil() || f.Type().Elem().Kind() != reflect.Struct {
+			continue
+		}
+		cp := reflect.New(f.Type().Elem())
+		cp.Elem().Set(f.Elem())
+		for j := 0; j < cp.Elem().NumField(); j++ {
+			if ff := cp.Elem().Field(j); ff.Type() == reflect.TypeOf(sdk.AccAddress{}) && ff.CanSet() {
+				ff.Set(reflect.ValueOf(addr))
+				changed = true
+			}
+		}
+		f.Set(cp)
+	}
+	return pl, changed
+}
+
 func c12Wasm(t *testing.T, rec *ev.Rec) {
 	u := newCDP(t, cdpOpts{variant: ev.ShardNo()})
 	defer u.c.Close()
@@ -285,6 +320,22 @@ func c12Wasm(t *testing.T, rec *ev.Rec) {
 		bz, err := json.Marshal(pl)
 		must(t, err)
 		for chainID, designated := range c12Designated {
+			bodies := []struct {
+				what string
+				bz   []byte
+			}{{"as-built", bz}}
+			for _, d := range designated {
+				// a hostile contract fills every address field of the body with a designated contract's address
+				if mp, changed := c12WithAddr(pl, sdk.MustAccAddressFromBech32(d)); changed {
+					mbz, err := json.Marshal(mp)
+					must(t, err)
+					bodies = append(bodies, struct {
+						what string
+						bz   []byte
+					}{"address-fields-name-designated-contract", mbz})
+				}
+			}
+			body := bz
 			dispatch := func(sender sdk.AccAddress) (error, bool) {
 				cctx, _ := c.Ctx().CacheContext()
 				cctx = cctx.WithChainID(chainID)
@@ -296,7 +347,7 @@ func c12Wasm(t *testing.T, rec *ev.Rec) {
 							err = fmt.Errorf("panic: %v", p)
 						}
 					}()
-					_, _, err = msgr.DispatchMsg(cctx, sender, "", wasmvmtypes.CosmosMsg{Custom: bz})
+					_, _, err = msgr.DispatchMsg(cctx, sender, "", wasmvmtypes.CosmosMsg{Custom: body})
 				}()
 				_, after := inject.Dump(cctx.MultiStore(), keys)
 				return err, before != after
@@ -312,16 +363,21 @@ func c12Wasm(t *testing.T, rec *ev.Rec) {
 				}
 			}
 			for _, s := range strangers {
-				err, changed := dispatch(s)
-				rec.Eval(1)
-				rec.Count("wasm_stranger_attempts", 1)
-				w := map[string]interface{}{"variant": v, "chain_id": chainID, "sender": s.String()}
-				if err == nil {
-					rec.Violate("C12/wasm/"+v+"/accepted-from-non-designated-sender", "a privileged custom message was accepted from a sender that is not a designated governance contract", w)
-				} else if changed {
-					rec.Violate("C12/wasm/"+v+"/rejected-but-state-changed", "a rejected custom message changed state", w)
+				for _, b := range bodies {
+					body = b.bz
+					err, changed := dispatch(s)
+					rec.Eval(1)
+					rec.Count("wasm_stranger_attempts", 1)
+					rec.Count("wasm_stranger_attempts_body_"+b.what, 1)
+					w := map[string]interface{}{"variant": v, "chain_id": chainID, "sender": s.String(), "body": string(b.bz)}
+					if err == nil {
+						rec.Violate("C12/wasm/"+v+"/accepted-from-non-designated-sender", "a privileged custom message was accepted from a sender that is not a designated governance contract", w)
+					} else if changed {
+						rec.Violate("C12/wasm/"+v+"/rejected-but-state-changed", "a rejected custom message changed state", w)
+					}
 				}
 			}
+			body = bz
 			// positive control: at least one designated contract passes the sender guard
 			passed := false
 			for _, d := range designated {
